@@ -53,6 +53,8 @@ type cnDriver struct {
 	nodeRts    map[string]string    // runtimes each node is currently registered for
 	pendRts    map[*cnTxSpec]string // proposed runtime lists of not yet executed registrations
 	rtOwner    map[string]string    // registered runtimes -> owning entity
+	rtDeps     map[string][][2]int64 // registered runtimes -> deployments (version, valid from) as last accepted
+	nodeVer    map[string]int64      // "node/runtime" -> runtime version the node last registered successfully
 	epoch      int64
 	blockLog   map[int64]*cnLogged // decided blocks with the validator set they were executed under and the observer\'s app hash
 	nSync      int
@@ -435,6 +437,38 @@ func (d *cnDriver) step() error {
 				rts, validity = "", "dropruntime" // an active node may not drop a runtime: must fail (node 1 always renews: precondition)
 			}
 			sp := &cnTxSpec{Kind: "regnode", Signer: v.name, Node: v.name, Amount: epochNow + 2 + int64(d.rng.Intn(2)), Nonce: nonce, Gas: 5000, Validity: validity, Rotate: rot, Runtimes: rts}
+			if rts != "" {
+				// the version the node runs: mostly the one in force in the next epoch, now and then the superseded or the announced one
+				var rv []string
+				for _, r := range strings.Split(rts, ",") {
+					ver, now := int64(0), int64(0)
+					best, bestNow := int64(-1), int64(-1)
+					for _, c := range d.rtDeps[r] {
+						if c[1] <= epochNow+1 && c[1] > best {
+							best, ver = c[1], c[0]
+						}
+						if c[1] <= epochNow && c[1] > bestNow {
+							bestNow, now = c[1], c[0]
+						}
+					}
+					// a version that is in force or announced may not be dropped by an update (registry rule): keep it until superseded
+					if c, ok := d.nodeVer[v.name+"/"+r]; ok && c >= now {
+						ver = c
+					}
+					if i != 1 { // node 1 always renews successfully (precondition of C10)
+						switch d.rng.Intn(8) {
+						case 0:
+							if ver > 0 {
+								ver--
+							}
+						case 1:
+							ver++
+						}
+					}
+					rv = append(rv, fmt.Sprintf("%s:%d", r, ver))
+				}
+				sp.RtVers = strings.Join(rv, ",")
+			}
 			d.pendRts[sp] = rts
 			raw, err := n.buildTx(sp, d.rng)
 			if err != nil {
@@ -457,7 +491,41 @@ func (d *cnDriver) step() error {
 				validity = "notowner"
 			}
 		}
-		sp := &cnTxSpec{Kind: "regruntime", Signer: e, To: r, Gov: []string{"entity", "entity", "runtime"}[d.rng.Intn(3)],
+		// deployments: the active one is kept, a superseded one is dropped, now and then an upgrade is announced for a later epoch;
+		// the descriptor lists them in either order
+		var deps []string
+		{
+			cur := d.rtDeps[r]
+			if len(cur) == 0 {
+				cur = [][2]int64{{0, 0}}
+			}
+			act, maxv := cur[0], cur[0][0]
+			var fut *[2]int64
+			for i, c := range cur {
+				if c[0] > maxv {
+					maxv = c[0]
+				}
+				if c[1] <= epochNow && c[1] >= act[1] {
+					act = c
+				}
+				if c[1] > epochNow {
+					fut = &cur[i]
+				}
+			}
+			keep := [][2]int64{act}
+			if fut != nil {
+				keep = append(keep, *fut)
+			} else if exists && d.rng.Intn(2) == 0 {
+				keep = append(keep, [2]int64{maxv + 1, epochNow + 1 + int64(d.rng.Intn(2))})
+			}
+			if len(keep) == 2 && d.rng.Intn(2) == 0 {
+				keep[0], keep[1] = keep[1], keep[0]
+			}
+			for _, k := range keep {
+				deps = append(deps, fmt.Sprintf("%d@%d", k[0], k[1]))
+			}
+		}
+		sp := &cnTxSpec{Kind: "regruntime", Signer: e, To: r, Deps: strings.Join(deps, ";"), Gov: []string{"entity", "entity", "runtime"}[d.rng.Intn(3)],
 			Shape: fmt.Sprintf("g%db%dm%dp%dv%ds%d", 1+d.rng.Intn(d.maxGroup), d.rng.Intn(3), d.rng.Intn(3), d.rng.Intn(2), btoi(d.rng.Intn(4) == 0), d.rng.Intn(2)), Nonce: uint64(d.acctField(e, "n")) + nonceBump[e], Gas: 5000, Validity: validity}
 		if raw, err := n.buildTx(sp, d.rng); err == nil {
 			nonceBump[e]++
@@ -878,6 +946,13 @@ func (d *cnDriver) observe(b *cnBlock, metas []cnTxMeta) cnBlockResult {
 				if rts, ok := d.pendRts[sp]; ok {
 					if resp.Code == 0 {
 						d.nodeRts[sp.Node] = rts
+						for _, kv := range strings.Split(sp.RtVers, ",") {
+							if j := strings.IndexByte(kv, ':'); j > 0 {
+								var ver int64
+								fmt.Sscanf(kv[j+1:], "%d", &ver)
+								d.nodeVer[sp.Node+"/"+kv[:j]] = ver
+							}
+						}
 					}
 					delete(d.pendRts, sp)
 				}
@@ -887,6 +962,14 @@ func (d *cnDriver) observe(b *cnBlock, metas []cnTxMeta) cnBlockResult {
 				}
 				if sp.Kind == "regruntime" && resp.Code == 0 {
 					d.rtOwner[sp.To] = sp.Signer
+					var dl [][2]int64
+					for _, dv := range strings.Split(sp.Deps, ";") {
+						var v, from int64
+						if _, err := fmt.Sscanf(dv, "%d@%d", &v, &from); err == nil {
+							dl = append(dl, [2]int64{v, from})
+						}
+					}
+					d.rtDeps[sp.To] = dl
 				}
 				if cand, ok := n.pendingRot[sp]; ok {
 					if resp.Code == 0 {
@@ -1009,7 +1092,7 @@ func consRun(args []string) int {
 		return 2
 	}
 	d := &cnDriver{net: net, valset: map[int]int64{}, rng: rand.New(rand.NewSource(*seed)), w: bufio.NewWriterSize(w, 1<<20),
-		paths: map[string]int{}, txKinds: map[string]int{}, nodeRts: map[string]string{}, pendRts: map[*cnTxSpec]string{}, rtOwner: map[string]string{}, maxGroup: *maxGroup, noRounds: *noRounds, syncEvery: *syncEvery}
+		paths: map[string]int{}, txKinds: map[string]int{}, nodeRts: map[string]string{}, pendRts: map[*cnTxSpec]string{}, rtOwner: map[string]string{}, rtDeps: map[string][][2]int64{}, nodeVer: map[string]int64{}, maxGroup: *maxGroup, noRounds: *noRounds, syncEvery: *syncEvery}
 	if *syncEvery > 0 {
 		d.blockLog = map[int64]*cnLogged{}
 	}
